@@ -81,6 +81,80 @@ theorem sweep_reports_charge (c : Cache) (now k cf : Nat) (cb : CB)
   obtain ⟨e, he, _, _, hcb⟩ := (Cache.sweepOne_removed_iff c now k cf cb).mp h
   exact ⟨e, he, hcb⟩
 
+/-- what `evictVictims` adds to the callback log: one `on_evict` per victim found in the store, with
+the cost the policy reported for that victim -/
+theorem evictVictims_cbs (vs : List (Nat × Int)) (c : Cache) (x : CB) (hx : x ∈ (c.evictVictims vs).cbs) :
+    x ∈ c.cbs ∨ ∃ p ∈ vs, ∃ cf v, x = CB.evict p.1 cf v p.2 := by
+  induction vs generalizing c with
+  | nil => left; exact hx
+  | cons p rest ih =>
+    obtain ⟨vk, vc⟩ := p
+    simp only [Cache.evictVictims] at hx
+    cases hr : (c.store.tryRemove vk 0).2 with
+    | none =>
+      rw [hr] at hx
+      rcases ih c hx with h | ⟨q, hq, cf, v, rfl⟩
+      · left; exact h
+      · right; exact ⟨q, List.mem_cons_of_mem _ hq, cf, v, rfl⟩
+    | some e =>
+      rw [hr] at hx
+      simp only at hx
+      have key : ∀ c2 : Cache, c2.cbs = CB.evict vk e.conflict e.val vc :: c.cbs → x ∈ (c2.evictVictims rest).cbs →
+          x ∈ c.cbs ∨ ∃ p ∈ (vk, vc) :: rest, ∃ cf v, x = CB.evict p.1 cf v p.2 := by
+        intro c2 hc2 hx2
+        rcases ih c2 hx2 with h | ⟨q, hq, cf, v, rfl⟩
+        · rw [hc2] at h
+          rcases List.mem_cons.mp h with rfl | h1
+          · right; exact ⟨(vk, vc), by simp, e.conflict, e.val, rfl⟩
+          · left; exact h1
+        · right; exact ⟨q, List.mem_cons_of_mem _ hq, cf, v, rfl⟩
+      split at hx
+      · exact key _ (by simp) hx
+      · exact key _ rfl hx
+
+/-- **callback_cost_is_charge (admission victims)**: every `on_evict` the processor delivers while
+applying a `New` item reports, for the evicted key, exactly the cost the policy charged for it before
+the item was applied — provided the sampled candidates are what `fill_sample` may produce
+(`RefillsOk`, checked at run time on the implementation's observations). -/
+theorem admission_victim_reports_charge (c : Cache) (su : Nat → Nat → Bool) (est : Nat → Int)
+    (refills : List (List (Nat × Int))) (k cf v : Nat) (cost : Int) (exp : Time)
+    (hok : RefillsOk est (est k) (c.internalCost cost) c.lfu [] refills)
+    (vk vcf vv : Nat) (vc : Int)
+    (hx : CB.evict vk vcf vv vc ∈ (c.handleItem su est refills (Item.new k cf cost v exp)).cbs)
+    (hnew : CB.evict vk vcf vv vc ∉ c.cbs) :
+    c.lfu.costs.get vk = some vc := by
+  simp only [Cache.handleItem] at hx
+  have hch := policyAdd_victims_charged c.lfu est k (c.internalCost cost) refills hok
+  cases hv : (policyAdd c.lfu est k (c.internalCost cost) refills).victims with
+  | none =>
+    rw [hv] at hx
+    simp only at hx
+    exfalso
+    split at hx
+    · split at hx <;> (simp at hx; exact hnew hx)
+    · simp at hx; exact hnew hx
+  | some vs =>
+    rw [hv] at hx
+    simp only at hx
+    have := hch vs hv
+    have key : ∀ c3 : Cache, (∀ y, y ∈ c3.cbs → y ∈ c.cbs ∨ ∃ a b d e', y = CB.reject a b d e') →
+        CB.evict vk vcf vv vc ∈ (c3.evictVictims vs).cbs → c.lfu.costs.get vk = some vc := by
+      intro c3 hc3 hx3
+      rcases evictVictims_cbs vs c3 _ hx3 with h | ⟨p, hp, cf', v', heq⟩
+      · rcases hc3 _ h with h1 | ⟨a, b, d, e', h1⟩
+        · exact absurd h1 hnew
+        · cases h1
+      · cases heq
+        exact this p hp
+    split at hx
+    · split at hx <;> exact key _ (fun y hy => Or.inl (by simpa using hy)) hx
+    · refine key _ ?_ hx
+      intro y hy
+      simp only [Cache.met_cbs, List.mem_cons] at hy
+      rcases hy with rfl | hy
+      · right; exact ⟨_, _, _, _, rfl⟩
+      · left; exact hy
+
 -- non-vacuity -------------------------------------------------------------------------------
 def exCfg : Cfg := { itemSize := 56, ignoreInternal := false, bufCap := 4, ringCap := 2, pqCap := some 3, metricsOn := false }
 example : ((Cache.init exCfg 1000 5).insert (fun _ _ => true) 3 0 9 0 0 10 7 false).1.buf =
@@ -96,3 +170,4 @@ end Stretto.C16
 #print axioms Stretto.C16.update_absent_noop
 #print axioms Stretto.C16.reject_reports_charge
 #print axioms Stretto.C16.sweep_reports_charge
+#print axioms Stretto.C16.admission_victim_reports_charge
